@@ -980,7 +980,9 @@ def type_check_args(
     comptime_args = iter(func_ty.comptime_args)
     for inp, func_inp in zip(inputs, func_ty.inputs, strict=True):
         a, s = ExprChecker(ctx).check(inp, func_inp.ty.substitute(subst), "argument")
-        subst |= s
+        # Apply the new solutions to the ones found so far: a variable that was solved
+        # in terms of another variable must not get a second, conflicting solution
+        subst = {x: t.substitute(s) for x, t in subst.items()} | s
         if InputFlags.Inout in func_inp.flags and isinstance(a, PlaceNode):
             a.place = check_place_assignable(
                 a.place, ctx, a, "able to borrow subscripted elements"
@@ -989,7 +991,7 @@ def type_check_args(
             comptime_arg = next(comptime_args)
             const = comptime_arg.const.substitute(subst)
             s = check_comptime_arg(a, const, func_inp.ty.substitute(subst), subst)
-            subst |= s
+            subst = {x: t.substitute(s) for x, t in subst.items()} | s
         new_args.append(a)
     assert next(comptime_args, None) is None
 
